@@ -51,6 +51,14 @@ def observe(cfg, capture=(), res=None, **kw):
             res.labels.add(crash_bucket(exc))
     if tr.overrun:
         res.labels.add("overrun")
+    tr.start_ok = True
+    if tr.n:
+        th0, pr = tr.th_before_a[0], tr.profile
+        if ((th0 < pr["th_dry"] - 1e-12) | (th0 > pr["th_s"] + 1e-12)).any():
+            # e.g. depth points evaluated in one layer and extended into a layer with other hydraulic properties:
+            # the run starts above saturation / below air-dry, which is outside every property's domain
+            tr.start_ok = False
+            res.labels.add("start_outside_airdry_saturation")
     return tr, res
 
 
